@@ -578,7 +578,14 @@ impl World {
                 let lcontact = NodeContact::try_from_enr(self.local_enr.clone(), IpMode::default()).ok().unwrap();
                 let sig = inp.get("sig").and_then(|x| x.as_str()).unwrap_or("own");
                 let signing = if sig == "bad" { mk_key(0xEE) } else { clone_key(&self.parties[pi].key) };
-                let (pv, sess) = match PeerSession::answer_challenge(&lcontact, &signing, rec, &claim, &aad, &plain) {
+                // "junk0" / "junk63" / "zero64": bytes that are no signature at all in the place of the id-signature
+                let crafted = match sig {
+                    "junk0" => PeerSession::answer_challenge_with_sig(&lcontact, vec![], rec, &claim, &aad, &plain),
+                    "junk63" => PeerSession::answer_challenge_with_sig(&lcontact, vec![0x5a; 63], rec, &claim, &aad, &plain),
+                    "zero64" => PeerSession::answer_challenge_with_sig(&lcontact, vec![0; 64], rec, &claim, &aad, &plain),
+                    _ => PeerSession::answer_challenge(&lcontact, &signing, rec, &claim, &aad, &plain),
+                };
+                let (pv, sess) = match crafted {
                     Ok(x) => x,
                     Err(e) => unresolved!(format!("answer_challenge: {e}")),
                 };
